@@ -137,3 +137,8 @@ def _replace_if_safeds_keyword(keyword: str) -> str:
     }:
         return f"`{keyword}`"
     return keyword
+
+
+def _escape_comment_text(text: str) -> str:
+    # A "*/" inside the text would end the surrounding Safe-DS comment too early
+    return text.replace("*/", "*\\/")
